@@ -238,7 +238,7 @@ class Ref:
                 if t.type == T.Token.NAME and t.string not in self.keywords:
                     return t, pos + 1
                 raise Fail
-            if t.type == T.Token[it[1]]:
+            if t.type == T.Token["ENDMARKER" if it[1] == "$" else it[1]]:  # '$' is the notation's shorthand for ENDMARKER
                 return t, pos + 1
             raise Fail
         if k == "ref":
